@@ -328,8 +328,10 @@ impl<T> Drop for Vec<T> {
         for (i, bucket) in self.buckets.iter_mut().enumerate() {
             let entries = *bucket.entries.get_mut();
 
+            // a bucket can be missing although a later one exists: indices that were
+            // reserved by `extend` but never filled do not allocate their bucket
             if entries.is_null() {
-                break;
+                continue;
             }
 
             let len = Location::bucket_len(i as u32);
